@@ -4,7 +4,7 @@ import SciVerif.Tie.Pins
 /-! Tie A obligations for C03 on the current source. -/
 namespace SciVerif.Tie
 -- functions the model relies on without an obligation of its own naming them (pinned by bin/mkpins):
--- PIN-ALSO: Scipipe.Task_tempDirsExist Scipipe.Process_Run Scipipe.FileIP_FifoFileExists Scipipe.FileIP_CreateFifo Scipipe.Process_initDefaultPathFuncs
+-- PIN-ALSO: Scipipe.NewTask Scipipe.NewFileIP Scipipe.FileIP_AuditInfo Scipipe.FileIP_SetAuditInfo Scipipe.Task_tempDirsExist Scipipe.Process_Run Scipipe.FileIP_FifoFileExists Scipipe.FileIP_CreateFifo Scipipe.Process_initDefaultPathFuncs
 open SciVerif.TaskFS
 
 theorem generated_wf_c03 : WF_C03 taskSem := by decide
@@ -51,15 +51,20 @@ theorem generated_all_ops_known_c03 : taskSemKnown = true := by decide
 
 
 
+
 -- BEGIN PINS (written by bin/mkpins; do not edit by hand)
 /-- the Go functions this property's model and obligations were written against have exactly the
 pinned skeletons (SHA-256 prefix of the atom list) -/
 theorem pinned_skeletons_c03 :
     pinsOk
     [("Scipipe.#decls", "08e57e98702ecd70"),
+     ("Scipipe.FileIP_AuditInfo", "5adb309a1fd92bb2"),
      ("Scipipe.FileIP_CreateFifo", "f6360b33d779c2ee"),
      ("Scipipe.FileIP_FifoFileExists", "b822f2c3227ef952"),
+     ("Scipipe.FileIP_SetAuditInfo", "9888139e5f6ebe46"),
      ("Scipipe.FinalizePaths", "291fc0cefa37cea9"),
+     ("Scipipe.NewFileIP", "5736f17570081214"),
+     ("Scipipe.NewTask", "95298f03c320cb96"),
      ("Scipipe.Process_Run", "40f832903317f455"),
      ("Scipipe.Process_initDefaultPathFuncs", "012072977ffdc36d"),
      ("Scipipe.Task_Execute", "40fd1fec0c69deb2"),
